@@ -203,6 +203,7 @@ func cmdCheck(prop, tier string) int {
 	var infra []string
 	stopped := false
 	knownHit := map[string]int{}
+	causalTests, causalOK := 0, 0
 	for r := range results {
 		agg.add(r.w, r.out)
 		for _, kv := range r.out.Known {
@@ -210,6 +211,16 @@ func cmdCheck(prop, tier string) int {
 				continue
 			}
 			if kf.lists(kv.Known, prop) {
+				// causal test for the findings with a textual trigger (bounded per run)
+				if (kv.Known == "K1" || kv.Known == "K2") && causalTests < 60 {
+					causalTests++
+					if !causal(env, r.w, kv, prop) {
+						kv.Msg += "\n(the trigger of known finding " + kv.Known + " is present, but the violation persists when the trigger is neutralised: it is not that finding)"
+						mine = append(mine, result{r.idx, r.w, &check.Outcome{Viol: kv}})
+						continue
+					}
+					causalOK++
+				}
 				knownHit[kv.Known]++
 			} else {
 				// the trigger of a listed finding holds, but the finding is not listed for
@@ -325,6 +336,7 @@ func cmdCheck(prop, tier string) int {
 		fmt.Printf("KNOWN-FINDING: property=%s %s: %s (met in %d worlds)\n", prop, f.ID, f.What, knownHit[id])
 	}
 	agg.known = knownHit
+	agg.causal = fmt.Sprintf("%d attributions to K1/K2 re-executed with the trigger neutralised, %d disappeared as they must", causalTests, causalOK)
 	agg.wall = time.Since(start)
 	if err := agg.write(filepath.Join(verifDir, "evidence", prop+".json"), src); err != nil {
 		return fatal2("evidence: %v", err)
